@@ -93,6 +93,17 @@ class SimLoop(base_events.BaseEventLoop):
         fut = self.create_future()
         self.exec_calls += 1
         lat = self.exec_lat[self.tape.draw(len(self.exec_lat))]
+        # a blocking call that takes a while (a user function marked with _sim_duration, possibly wrapped in partial(ctx.run, fn))
+        probe = func
+        for _ in range(3):
+            d = getattr(probe, "_sim_duration", None)
+            if d is not None:
+                lat += d
+                break
+            a = getattr(probe, "args", None)
+            if not a:
+                break
+            probe = a[0] if not hasattr(a[0], "run") or len(a) < 2 else a[1]
         if self.ctx is not None and lat:
             self.ctx.fault("executor_latency")
         state = {"ran": False}
